@@ -741,7 +741,8 @@ func (fr *Frame) selectStmt(st *State, in *ssa.Select) {
 	for _, s := range in.States {
 		if s.Dir == types.SendOnly && s.Send != nil {
 			fr.curSite = in
-			fr.pseudoCallSpecs(st, "select-send:"+fr.describeValue(s.Chan), []Val{{T: fr.val(s.Send), Ty: s.Send.Type()}}, in.Pos())
+			// $0 is the value offered, $1 the channel it is offered on
+			fr.pseudoCallSpecs(st, "select-send:"+fr.describeValue(s.Chan), []Val{{T: fr.val(s.Send), Ty: s.Send.Type()}, {T: fr.val(s.Chan), Ty: s.Chan.Type()}}, in.Pos())
 			x.bump(st, "select-send:"+fr.describeValue(s.Chan))
 		}
 	}
@@ -758,9 +759,11 @@ func (fr *Frame) pseudoCallSpecs(st *State, key string, args []Val, pos token.Po
 		return
 	}
 	for _, cs := range top.ct.Calls {
-		if cs.Callee != key {
+		// "select-send" without a channel name matches every send a select offers (robust against renaming the channel variable)
+		if cs.Callee != key && !(cs.Callee == "select-send" && strings.HasPrefix(key, "select-send:")) {
 			continue
 		}
+		x.noteMatched(cs.Clause)
 		sc := top.scope(st, top.entry)
 		sc.vars = map[string]Val{}
 		for i, a := range args {
